@@ -324,6 +324,31 @@ class Sym:
         else:
           outs.append(o)
       return outs
+    if isinstance(s, ast.Try):
+      # a registry lookup inside the try misses on ordinary values: the
+      # LookupError handler is the path taken; otherwise the body completes
+      looks = any(isinstance(c, ast.Call) and isinstance(c.func, ast.Attribute) and
+                  c.func.attr == 'lookup' for b in s.body for c in ast.walk(b))
+      hs = [h for h in s.handlers if h.type is not None and core.dotted(h.type) in (
+          'LookupError', 'KeyError')]
+      if looks and hs:
+        outs = self._block(hs[0].body, dict(env), depth)
+      else:
+        outs = []
+        for o in self._block(s.body, dict(env), depth):
+          if o[0] == 'fall' and s.orelse:
+            outs.extend(self._block(s.orelse, o[1], depth))
+          else:
+            outs.append(o)
+      if s.finalbody:
+        outs2 = []
+        for o in outs:
+          if o[0] == 'fall':
+            outs2.extend(self._block(s.finalbody, o[1], depth))
+          else:
+            outs2.append(o)
+        outs = outs2
+      return outs
     if isinstance(s, ast.Break):
       return [('break', env)]
     if isinstance(s, ast.Continue):
